@@ -409,6 +409,15 @@ func (f *flow) Start(ctx context.Context) {
 							for _, handle := range flowHandlers {
 								handle(ctx)
 							}
+							if !flowed {
+								// the token left on additional flows only: this flow ends
+								// here instead of asking the node for another action
+								f.tracer.Send(TerminationTrace{
+									FlowId: f.Id(),
+									Source: source,
+								})
+								return
+							}
 						} else {
 							// no flows to continue with, abort
 							f.tracer.Send(TerminationTrace{
